@@ -75,7 +75,11 @@ PLACEHOLDER_PLAIN = [
     ('e{$#}*2', '<e>%s</e><e>%s</e>', '<e></e><e>%s</e>'),
 ]
 PLAIN_OWN_TEXT = {'x>y{k}': 'k', 'x>y{k${1:f}}': 'kf'}
-BOUNDS = {'quick': dict(payload=3, lines=3), 'thorough': dict(payload=4, lines=4)}
+BOUNDS = {'quick': dict(payload=3, lines=3, multi=3), 'thorough': dict(payload=4, lines=4, multi=4)}
+# (c) text that spans several lines: the three line-break spellings, the tokens that end a string chunk ($ numbering, a field, a
+# variable) next to them, blanks, and characters that only `str.splitlines` takes for line breaks (they are ordinary text)
+ML_UNITS = ['a', '\n', 'b', ' ', '$', '${1:x}', '${lang}', '\r\n', '\r', '\x0c', '\u2028', '\x85', '\x1c']
+ML_SYNTAXES = ['html', 'pug', 'haml']
 NOFMT = {'output.format': False}
 
 
@@ -84,12 +88,14 @@ def describe(tier):
     return dict(
         rule='(a) E1: all payloads of 1..%d units from %d text units (operators, brackets, quotes, escapes \\$ \\} \\{ \\\\ \\a, '
              'balanced braces, unicode, nbsp; not starting with `<`) in %d hosts %s. (b) E1: all lists of <= %d wrap lines from a '
-             '%d-line menu %s x %d templates with an implicit repeater and %d without. Transition = one appended unit / line.' % (
+             '%d-line menu %s x %d templates with an implicit repeater and %d without. (c) E1: all texts of <= %d units from %s in '
+             '`q>x{T}+z` under %s: the lines of T (split at LF, CRLF, CR only) come out verbatim, one output line each. '
+             'Transition = one appended unit / line.' % (
                  b['payload'], len(TEXT_UNITS), len(HOSTS), [h[0] for h in HOSTS], b['lines'], len(LINES), LINES,
-                 len(IMPLICIT), len(PLAIN)),
+                 len(IMPLICIT), len(PLAIN), b['multi'], ML_UNITS, ML_SYNTAXES),
         nontrivial='payload has >= 2 units / the list has >= 2 non-blank lines.',
         bounds=b,
-        assumptions=['`$` inside inline text is numbering (C02); payloads starting with `<` or containing newlines, `$#` outside an '
+        assumptions=['`$` inside inline text is numbering (C02); payloads starting with `<`, `$#` outside an '
                      'implicit repeater, several implicit repeaters and text given as one string with X* are left unspecified'],
         explanation='Each case is expanded by emmet.expand with formatting off and compared as a string with the closed-form expectation.',
     )
@@ -103,6 +109,8 @@ def shards(tier):
             out.append(dict(kind='inline', host=hi, **sh))
     for sh in explore.strings_shards(list(range(len(LINES))), b['lines'], 1):
         out.append(dict(kind='wrap', **sh))
+    for sh in explore.strings_shards(ML_UNITS, b['multi'], 1):
+        out.append(dict(kind='multiline', **sh))
     return out
 
 
@@ -135,6 +143,34 @@ def check_inline(hi, units):
         exp = pre + txt + post
     if out != exp:
         return abbr, ('inline:not-verbatim:%s' % host.replace('%s', 'T'), dict(abbr=abbr, expected=exp, actual=out))
+    return abbr, None
+
+
+ML_VALUE = {'$': '1', '${1:x}': 'x', '${lang}': 'en'}
+
+
+def check_multiline(units, syntax):
+    "x{T}+z with line breaks in T: every line of T comes out verbatim, in order, one output line each"
+    src = ''.join(units)
+    abbr = 'q>x{%s}+z' % src
+    text = ''.join(ML_VALUE.get(u, u) for u in units)
+    lines = re.split(r'\r\n|\r|\n', text)
+    try:
+        out = expand(abbr, {'syntax': syntax, 'options': {'output.format': True}})
+    except Exception as e:
+        return abbr, ('multiline:exception:%s' % type(e).__name__, dict(abbr=abbr, error=str(e)[:120]))
+    if syntax == 'html':
+        if len(lines) == 1:
+            exp = '<q>\n\t<x>%s</x>\n\t<z></z>\n</q>' % text
+        else:
+            exp = '<q>\n\t<x>\n' + ''.join('\t\t%s\n' % l for l in lines) + '\t</x>\n\t<z></z>\n</q>'
+    elif syntax == 'pug':
+        exp = 'q\n\tx %s\n\tz ' % text if len(lines) == 1 else 'q\n\tx\n' + ''.join('\t\t| %s\n' % l for l in lines) + '\tz '
+    else:
+        w = max(len(l) for l in lines)          # HAML pads the lines of one text to the same length before the closing ` |`
+        exp = '%%q\n\t%%x %s\n\t%%z ' % text if len(lines) == 1 else '%q\n\t%x\n' + ''.join('\t\t%s |\n' % l.ljust(w) for l in lines) + '\t%z '
+    if out != exp:
+        return abbr, ('multiline:lines-not-verbatim:%s' % syntax, dict(abbr=abbr, syntax=syntax, expected=exp, actual=out))
     return abbr, None
 
 
@@ -235,6 +271,32 @@ def run_shard(shard, ctx, tier):
         if abbr:
             ctx.sample(dict(abbr=abbr))
         return
+    if shard['kind'] == 'multiline':
+        abbr = None
+        for units in explore.strings_of_shard(ML_UNITS, shard):
+            if not units:
+                continue
+            if any(units[i] == '$' and units[i + 1][0] in '#@${' for i in range(len(units) - 1)):
+                ctx.skip('`$` followed by `#`, `@`, `$` or `{` is another token ($#, modifier, wider run, field)')
+                continue
+            if any(units[i] == '\r' and units[i + 1] in ('\n', '\r\n') for i in range(len(units) - 1)):
+                ctx.skip('a lone CR directly followed by LF is the CRLF unit')
+                continue
+            ctx.tick(units)
+            for syntax in ML_SYNTAXES:
+                ctx.states += 1
+                ctx.transitions += 1
+                ctx.evals += 1
+                ctx.validated += 1
+                if len(units) >= 2:
+                    ctx.nontrivial += 1
+                abbr, bad = check_multiline(units, syntax)
+                ctx.outcome(('ml', syntax, len(units), bad is None))
+                if bad:
+                    ctx.violation(bad[0], dict(ml=list(units), syntax=syntax, abbr=abbr), bad[1])
+        if abbr:
+            ctx.sample(dict(abbr=abbr))
+        return
     lines = None
     for idx in explore.strings_of_shard(list(range(len(LINES))), shard):
         lines = [LINES[i] for i in idx]
@@ -254,6 +316,9 @@ def run_shard(shard, ctx, tier):
 
 
 def check_case(case):
+    if 'ml' in case:
+        _, bad = check_multiline(tuple(case['ml']), case['syntax'])
+        return [bad] if bad else []
     if 'host' in case:
         _, bad = check_inline(case['host'], tuple(case['units']))
         return [bad] if bad else []
@@ -261,6 +326,8 @@ def check_case(case):
 
 
 def repro(case):
+    if 'ml' in case:
+        return 'from emmet import expand\nprint(repr(expand(%r, {"syntax": %r})))\n' % (case['abbr'], case['syntax'])
     if 'host' in case:
         return 'from emmet import expand\nprint(expand(%r, {"options": {"output.format": False}}))\n' % case['abbr']
     return 'from emmet import expand\nprint(expand(%r, {"text": %r, "options": {"output.format": False}}))\n' % (case['abbr'], case['lines'])
